@@ -323,3 +323,16 @@ U("poll.set_new_evt", src="units/poll_unit.c", harness="h_poll_set_new_evt", enf
 U("src.priv_dtor", src="units/poll_unit.c", harness="h_src_priv_dtor", enforce="src_priv_dtor", defines=["V_SRCDTOR_UNIT"],
   replace=["m_mod_is", "poll_set_new_evt", "v_close"], logctx="CORE",
   props=["C20", "C04"], contract_files=POLLC, native=False, timeout=300, min_obligations=20)
+THP = ["contracts/thpool.contracts.h"]
+U("thpool.add", src="units/thpool_unit.c", harness="h_pool_add", enforce="m_thpool_add", defines=["V_POOL_ADD"], logctx="THPOOL",
+  replace=["v_mutex_lock", "v_mutex_unlock", "v_cond_signal", "m_list_len", "add_threads", "m_queue_enqueue"],
+  props=["C06", "C04"], contract_files=THP, native=False, timeout=300, min_obligations=20)
+U("thpool.length", src="units/thpool_unit.c", harness="h_pool_length", enforce="m_thpool_length", defines=["V_POOL_LEN"], logctx="THPOOL",
+  replace=["v_mutex_lock", "v_mutex_unlock", "m_queue_len"], props=["C06", "C04"], contract_files=THP, native=False, timeout=300, min_obligations=20)
+U("thpool.worker", src="units/thpool_unit.c", harness="h_pool_worker", enforce=None, defines=["V_POOL_WORKER"], logctx="THPOOL", loop_contracts=True,
+  replace=["v_mutex_lock", "v_mutex_unlock", "v_cond_wait", "m_queue_len", "m_queue_dequeue", "v_task"],
+  props=["C06", "C04"], contract_files=THP, native=False, timeout=300, min_obligations=20, must_have=["invariant after step"])
+PROPS["C06"] = {"level": "proof", "level_text": "TODO", "level_note": "TODO", "not_decided": [], "explanation": "TODO"}
+U("thpool.wait_pool", src="units/thpool_unit.c", harness="h_wait_pool", enforce="wait_pool", defines=["V_POOL_WAIT"], logctx="THPOOL", loop_contracts=True,
+  replace=["v_mutex_lock", "v_mutex_unlock", "v_cond_broadcast", "m_list_itr_new", "m_list_itr_next", "m_list_itr_get_data", "v_thread_join"],
+  props=["C06", "C04"], contract_files=THP, native=False, timeout=200, min_obligations=20, must_have=["invariant after step"])
